@@ -56,6 +56,11 @@ def obligations(tier: str) -> list[Ob]:
             bounds={"operations": 3, "tag lists": 4, "generate_all_tags": "both"},
         ),
         harness_ob(
+            "response_accounting", "C07_accounting.py", tier, funcs=["responses_accounted"], timeout=330 if q else 900, cpus=1,
+            encoded=["openapi_python_client.parser.openapi:Endpoint._add_responses", "openapi_python_client.parser.responses:response_from_data"],
+            bounds={"responses per operation": "<= 4 entries (3 independent keys)", "keys": "200, 404, 503, 4XX, default, 299", "unresolvable response": "at most two positions"},
+        ),
+        harness_ob(
             "schema_accounting", "C06_builders.py", tier, funcs=["create_schemas_terminates"], timeout=120 if q else 400, cpus=1,
             encoded=["openapi_python_client.parser.properties:_create_schemas"],
             stubs=["update_schemas_with_data -> arbitrary success/failure table"],
